@@ -57,7 +57,11 @@ func runC02(rc *RunCtx) {
 				d = []uint32{0, 1, 4, 0xffffffff, 5, 4}[(i/3)%6]
 				in = &InMsg{Version: 0, Src: d, Dst: 4, Nonce: n, Sender: Structured32(1), Recipient: Structured32(2), Caller: make([]byte, 32), Body: []byte{1, 2, 3}}
 			} else {
-				in = StdInbound(n, i%NAccounts, big.NewInt(int64(1+i)))
+				amt := big.NewInt(int64(1 + i))
+				if i%7 == 4 { // a burn message stating amount 0
+					amt = big.NewInt(0)
+				}
+				in = StdInbound(n, i%NAccounts, amt)
 				in.Src = d
 				in.Sender = Messenger(d, 0)
 			}
